@@ -4,6 +4,7 @@ import datetime
 import hashlib
 import json
 import struct
+import os
 import sys
 import time
 import zoneinfo
@@ -118,6 +119,12 @@ def forms(t, zones):
 def main():
     instants = json.load(open(sys.argv[1]))
     from pamqp import commands, decode, encode, frame, header
+    late = os.environ.get('MC_TZ_LATE')
+    if late:
+        # the application selects its zone after the libraries are loaded
+        # (what a framework applying a TIME_ZONE setting does)
+        os.environ['TZ'] = late
+        time.tzset()
     zones = [(n, zoneinfo.ZoneInfo(n)) for n in DST_ZONES]
     digest = hashlib.sha256()
     n = 0
